@@ -123,7 +123,7 @@ class LStar:
             # columns, so that state kept on the samples OBJECT by pack() cannot contaminate the reference
             cols = []
             for name in h.packed_order:
-                col = lib.samples.tbl[name]
+                col = lib.ref[name]  # the library's PRIVATE reference copy, not the live object
                 unit = h.internal_units.get(name, col.unit)
                 cols.append(np.asarray(col.to_value(unit)))
             arr = np.stack(cols, axis=1)
